@@ -1066,7 +1066,13 @@ class mulgrid(object):
         try:
             for olditem, newitem in zip(oldcolname, newcolname):
                 i = self.columnlist.index(self.column[olditem])
-                self.columnlist[i].name = newitem
+                col = self.columnlist[i]
+                # connections are found under the names of their columns:
+                for con in col.connection:
+                    del self.connection[tuple([c.name for c in con.column])]
+                col.name = newitem
+                for con in col.connection:
+                    self.connection[tuple([c.name for c in con.column])] = con
                 self.column[newitem] = self.column.pop(olditem)
             self.setup_block_name_index()
             self.setup_block_connection_name_index()
